@@ -35,8 +35,9 @@ locals, captured variables (capture chains) and the enclosing function itself BY
 variables, closures returned / stored / called after their creator has returned; at top level `let`, `fn f…`,
 `f = fn…` (mutual recursion through globals) and statements.  The predicates are `Bool`-valued; the single test that
 is not computable is `Φ fd = some d` for a function literal (`Φ` is an arbitrary function; `Classical.decide`).
-EXCLUDED: assignment to a captured variable (`fset`: the oracle poisons the closure's copy and `Frame` keeps the
-activation's base fixed), arrays, maps, builtins; `let` inside a top-level block; a global function's body
+EXCLUDED: assignment to a captured variable (`fset`: the oracle poisons the closure's copy, answers `unc` when another
+activation of the same closure object is live -- a rule added after this file found the oracle committing to a stale
+copy there, see the examples at the end --, and `Frame` keeps the activation's base fixed), arrays, maps, builtins; `let` inside a top-level block; a global function's body
 mentioning a global defined after it (also unresolved for the real compiler) or its own global slot other than by
 its name; function bodies whose last statement is a block or a loop (the oracle leaves their value open).
 No disagreement between the oracle and `Core.Fn` was found on the fragment.
@@ -3664,6 +3665,46 @@ theorem reT_oracle : isUnc (run (evalStmts 80 [[]] (toTops stdNames reT) .null) 
 theorem reT_coreFn : (Core.Fn.evalT (Core.Fn.phiT reT) 60 (List.replicate 3 .null) [[]] {} reT).map (fun r => r.1.map intOf) =
     some [none, none, some 5] := by
   decide +kernel
+
+/-! ### assignment to captured variables without re-entrancy: agreement checked by evaluation
+
+Not covered by the theorems (`fset` is outside `okE`: a proof needs the activation's base environment and the closure
+heap to change in place, i.e. `Frame` over a threaded base, closure objects in one-to-one correspondence with table
+entries, and the invariant that committed assignments never touch the objects of `St.active`).  Three scenarios
+evaluated on both sides: a counter called once; an assignment before the first read in two successive activations;
+a nested activation that only READS, after which the outer activation assigns. -/
+
+def cbBody : List FStmt := [.expr 1 (.fset 1 0 (.lget 1 0)), .expr 1 (.fget 1 0)]
+def cbD : FDecl := ⟨1, 1, cbBody, 1⟩
+def cbMk : FDecl := ⟨0, 1, [.letL 1 0 (.lit 1 (.int 0)),
+  .ret 1 (.mkclos 1 (Core.Fn.fnTop 1 cbD).1 (Core.Fn.fnTop 1 cbD).2 1 1 cbBody [.loc 0])], 1⟩
+/-- `fn mk() { let a = 0; return fn(n) { a = n; a }; }  let c = mk(); let x = c(5); let y = c(7);` -/
+def cbT : List FTop := [
+  .fnDef 1 0 (Core.Fn.fnTop 0 cbMk).1 (Core.Fn.fnTop 0 cbMk).2 cbMk,
+  .stmt (.letG 1 1 (.call 1 (.gget 1 0) .nil)),
+  .stmt (.letG 1 2 (.call 1 (.gget 1 1) (.cons (.lit 1 (.int 5)) .nil))),
+  .stmt (.letG 1 3 (.call 1 (.gget 1 1) (.cons (.lit 1 (.int 7)) .nil)))]
+
+example : cellInts (run (evalStmts 80 [[]] (toTops stdNames cbT) .null) {}) = some [none, none, some 5, some 7] := by decide +kernel
+example : (Core.Fn.evalT (Core.Fn.phiT cbT) 60 (List.replicate 4 .null) [[]] {} cbT).map (fun r => r.1.map intOf) =
+    some [none, none, some 5, some 7] := by decide +kernel
+
+def ccBody : List FStmt := [.ifS 1 1 (.bin 1 .equal (.lget 1 0) (.lit 1 (.int 0)))
+  [.expr 1 (.fget 1 0)]
+  [.expr 1 (.fset 1 0 (.bin 1 .add (.call 1 (.gget 1 0) (.cons (.lit 1 (.int 0)) .nil)) (.lit 1 (.int 10)))), .expr 1 (.fget 1 0)]]
+def ccD : FDecl := ⟨1, 1, ccBody, 1⟩
+def ccMk : FDecl := ⟨0, 1, [.letL 1 0 (.lit 1 (.int 1)),
+  .ret 1 (.mkclos 1 (Core.Fn.fnTop 1 ccD).1 (Core.Fn.fnTop 1 ccD).2 1 1 ccBody [.loc 0])], 1⟩
+/-- `let g = null; fn mk() { let a = 1; return fn(n) { if n == 0 { a } else { a = g(0) + 10; a } }; }  g = mk(); let r = g(1);` -/
+def ccT : List FTop := [
+  .stmt (.letG 1 0 (.null 1)),
+  .fnDef 1 1 (Core.Fn.fnTop 0 ccMk).1 (Core.Fn.fnTop 0 ccMk).2 ccMk,
+  .stmt (.expr 1 (.gset 1 0 (.call 1 (.gget 1 1) .nil))),
+  .stmt (.letG 1 2 (.call 1 (.gget 1 0) (.cons (.lit 1 (.int 1)) .nil)))]
+
+example : cellInts (run (evalStmts 80 [[]] (toTops stdNames ccT) .null) {}) = some [none, none, some 11] := by decide +kernel
+example : (Core.Fn.evalT (Core.Fn.phiT ccT) 60 (List.replicate 3 .null) [[]] {} ccT).map (fun r => r.1.map intOf) =
+    some [none, none, some 11] := by decide +kernel
 
 end Examples
 
